@@ -59,6 +59,13 @@ func properties() []*propDef {
 			Assumptions: []string{"shopspring/decimal arithmetic is exact"},
 		},
 		{
+			ID: "C11", Title: "Parsing respects FHIRPath precedence, associativity and token boundaries",
+			Rules: []ruleFn{rulePARSE1, rulePARSE23, rulePARSE4, rulePARSE56, rulePAN6, ruleNAV2},
+			Explanation: "PARSE1: the grammar's alternative order and operator sets equal the frozen N1 precedence table; the generated parser's Precpred level per alternative equals the position-derived level, the right operand of every binary alternative is parsed at level+1 (left associativity), token-set bit masks equal the grammar's operator sets, LiteralNames equal the grammar literals (.g4 ↔ generated code sync). PARSE2/3: in every binary visitor Left/Right come from Expression(0)/Expression(1) and the right operand is visited with a reset clone. PARSE4: per operator token the constructed node kind and operation (SCCP with the token pinned) equal the frozen map, and EvaluateX dispatches to method X on every operand type. PARSE5: start rule requires EOF, listeners replace the defaults on lexer and parser, the collected error dominates the success return. PARSE6: String() returns the stored source parameter.",
+			NotDecided: []string{"identical evaluation of two renderings of a tree (behavioural)", "lexer channel routing inside the serialized ATN (opaque without the ANTLR tool); only the grammar's channel commands are read", "consistency of the serialized ATN with the hand-readable parser code"},
+			Assumptions: []string{"ANTLR's precedence-climbing scheme: level = number of alternatives - index"},
+		},
+		{
 			ID: "C13", Title: "Conversion functions are mutually consistent and round-trip through strings",
 			Rules: []ruleFn{ruleCNV1, ruleCNV34, ruleTAB1},
 			Explanation: "CNV1: each convertsToT calls exactly toT on its own input and (SCCP with that call pinned) is true iff the result is non-empty and never an error. CNV3/CNV4: for each of the 8 targets x 11 input item forms (every System type, a FHIR primitive, a complex element) SCCP with the item's dynamic type pinned shows that toT never returns an error for a single item and that every non-empty result holds a value of dynamic type T; multi-item input is an error. TAB1: the table binds toT/convertsToT to the implementation of that name.",
